@@ -400,6 +400,24 @@ func c16Main(r *run.Runner) {
 		c16Compare(w, input, "file", e.run(w, "", f1), nil)
 		w.Count("traces_validated", 2)
 	})
+	// wide statements: each wide family at each size as a session (terminated / unterminated / followed by a use of its lets)
+	wides := wideTexts(r.Thorough())
+	r.Sweep("wide-statements", int64(len(wides)), func(w *run.Worker, item int64) {
+		if envs[w.ID] == nil {
+			d := filepath.Join(scratch, fmt.Sprintf("w%d", w.ID))
+			os.MkdirAll(d, 0o755)
+			envs[w.ID] = &cliEnv{bin: bin, dir: d}
+		}
+		e := envs[w.ID]
+		src := wides[item]
+		multi := strings.ReplaceAll(src, " | ", "\n| ")
+		for _, input := range []string{src + ";\n", multi, src + ";\n" + multi + ";\nT | count"} {
+			w.Begin("cli-vs-model:wide", input)
+			w.Nontrivial()
+			c16Compare(w, input, "stdin", e.run(w, input), nil)
+			w.Count("traces_validated", 1)
+		}
+	})
 	// faults
 	faultHist := [][]int{}
 	for _, h := range hist {
